@@ -806,6 +806,29 @@ class Canonicalizer:
                 b = ast.copy_location(ast.Return(value=ie.orelse), st)
                 self._replace_stmt(new, st, [ast.copy_location(ast.If(test=ie.test, body=[a], orelse=[b]), st)])
                 return True
+            # `T = A if c else B` -> if c: T = A else: T = B          (T a plain name)
+            if isinstance(st, ast.Assign) and len(st.targets) == 1 and isinstance(st.targets[0], ast.Name) and isinstance(st.value, ast.IfExp):
+                ie = st.value
+                a = ast.copy_location(ast.Assign(targets=[clone(st.targets[0])], value=ie.body), st)
+                b = ast.copy_location(ast.Assign(targets=[clone(st.targets[0])], value=ie.orelse), st)
+                self._replace_stmt(new, st, [ast.copy_location(ast.If(test=ie.test, body=[a], orelse=[b]), st)])
+                return True
+            # `T = f(k, A if c else B)` where nothing else in the call reads T: the choice is made first, on T itself -> `T = A if c else B; T = f(k, T)`
+            if isinstance(st, ast.Assign) and len(st.targets) == 1 and isinstance(st.targets[0], ast.Name) and isinstance(st.value, ast.Call):
+                T = st.targets[0].id
+                call = st.value
+                ies = [i for i, a_ in enumerate(call.args) if isinstance(a_, ast.IfExp)]
+                if len(ies) == 1 and not call.keywords or (len(ies) == 1 and all(not any(isinstance(x, ast.Name) and x.id == T for x in ast.walk(k.value)) for k in call.keywords)):
+                    i = ies[0]
+                    others = [a_ for j, a_ in enumerate(call.args) if j != i] + [call.func]
+                    reads_t = any(isinstance(x, ast.Name) and x.id == T for o in others for x in ast.walk(o))
+                    uses_t = any(isinstance(x, ast.Name) and x.id == T for x in ast.walk(call.args[i]))
+                    pure_others = all(_side_effect_free(o) for o in others if o is not call.func)
+                    if not reads_t and uses_t and pure_others:
+                        first = ast.copy_location(ast.Assign(targets=[clone(st.targets[0])], value=call.args[i]), st)
+                        call.args[i] = ast.copy_location(ast.Name(id=T, ctx=ast.Load()), st)
+                        self._replace_stmt(new, st, [first, st])
+                        return True
             if isinstance(st, ast.Try) and len(st.body) == 1 and len(st.handlers) == 1 and not st.orelse and not st.finalbody \
                     and st.handlers[0].type is not None and norm_name(st.handlers[0].type) == "KeyError" and st.handlers[0].name is None \
                     and isinstance(st.body[0], ast.Assign) and len(st.body[0].targets) == 1 and isinstance(st.body[0].value, ast.Subscript) \
@@ -941,6 +964,27 @@ class Canonicalizer:
             mapping = {k: v for k, v in mapping.items() if k in used}
             if mapping:
                 new.body = [_Subst(mapping).visit(st) for st in new.body]
+        # module-level precompiled patterns: NAME = re.compile(<literal>[, flags]); NAME.sub(r, s) is re.sub(<literal>, r, s[, flags=...])
+        RX_METHODS = {"sub": 2, "subn": 2, "match": 1, "search": 1, "fullmatch": 1, "findall": 1, "finditer": 1, "split": 1}
+        rx: Dict[str, ast.Call] = {}
+        for n, v in vals.items():
+            if counts[n] == 1 and n not in dirty and n not in local and n not in self.protected and isinstance(v, ast.Call) and isinstance(v.func, ast.Attribute) and v.func.attr == "compile" and norm_name(v.func.value) == "re" \
+                    and v.args and literal(v.args[0]) and all(k.arg == "flags" for k in v.keywords) and len(v.args) <= 2:
+                rx[n] = v
+        if rx:
+            class _Rx(ast.NodeTransformer):
+                def visit_Call(self, node):
+                    self.generic_visit(node)
+                    f = node.func
+                    if isinstance(f, ast.Attribute) and isinstance(f.value, ast.Name) and f.value.id in rx and f.attr in RX_METHODS and len(node.args) <= RX_METHODS[f.attr] \
+                            and not any(k.arg in ("pos", "endpos") for k in node.keywords):
+                        comp = rx[f.value.id]
+                        flags = comp.args[1] if len(comp.args) > 1 else next((k.value for k in comp.keywords if k.arg == "flags"), None)
+                        call = ast.Call(func=ast.Attribute(value=ast.Name(id="re", ctx=ast.Load()), attr=f.attr, ctx=ast.Load()),
+                                        args=[clone(comp.args[0])] + list(node.args), keywords=list(node.keywords) + ([ast.keyword(arg="flags", value=clone(flags))] if flags is not None else []))
+                        return ast.copy_location(call, node)
+                    return node
+            new.body = [_Rx().visit(st) for st in new.body]
 
     # ------------------------------------------------------------------ copy propagation
     def _copy_propagate(self, new: ast.FunctionDef) -> bool:
